@@ -541,3 +541,51 @@ M("f10-tuple-accessor-off-by-one", "C07", "fire F10", "src/check.rs",
 M("f1-line-comment-reorder", "C07", "quiet", "src/scan.rs",
   """                        while !(self.peek('\\n') || self.is_empty()) {""",
   """                        while !(self.is_empty() || self.peek('\\n')) {""", "behaviour-preserving: tests reordered")
+
+# ---------------------------------------------------------------- C15
+M("u1-raw-and-in-push-or", "C15", "fire U1", "src/circuit.rs",
+  """        let xor = self.push_xor(x, y);
+        let and = self.push_and(x, y);
+        self.push_xor(xor, and)""",
+  """        let xor = self.push_xor(x, y);
+        let and = self.push_gate(BuilderGate::And(x, y));
+        self.push_xor(xor, and)""", "OR emits its AND without folding constants / equal operands")
+M("u1-and-not-guarded", "C15", "fire U1", "src/circuit.rs",
+  """    pub fn push_and(&mut self, x: GateIndex, y: GateIndex) -> GateIndex {
+        if let Some(optimized) = self.optimize_and(x, y) {""",
+  """    pub fn push_and(&mut self, x: GateIndex, y: GateIndex) -> GateIndex {
+        if x > y && x % 7 == 3 {
+            return self.push_gate(BuilderGate::And(x, y));
+        }
+        if let Some(optimized) = self.optimize_and(x, y) {""", "some AND requests bypass the optimiser")
+M("u2-no-idempotence", "C15", "fire U2", "src/circuit.rs",
+  """        } else if y == 1 || x == y {
+            return Some(x);""",
+  """        } else if y == 1 {
+            return Some(x);""", "x & x creates an AND gate")
+M("u2-cache-not-commutative", "C15", "fire U2", "src/circuit.rs",
+  """                BuilderGate::And(x, y) => self.cache.get(&BuilderGate::And(*y, *x)),""",
+  """                BuilderGate::And(x, y) => self.cache.get(&BuilderGate::And(*x, *y)),""", "a & b and b & a both emitted")
+M("u3-no-sweep-fast-path", "C15", "fire U3", "src/circuit.rs",
+  """        self.gates.shrink_to_fit();
+        let output_gates = self.remove_unused_gates(output_gates);""",
+  """        self.gates.shrink_to_fit();
+        let output_gates = if self.gates.len() < 64 {
+            output_gates
+        } else {
+            self.remove_unused_gates(output_gates)
+        };""", "small circuits keep their dead gates")
+M("u4-cast-emits", "C15", "fire U4", "src/compile.rs",
+  """                    std::cmp::Ordering::Equal => expr,""",
+  """                    std::cmp::Ordering::Equal => {
+                        for w in expr.iter_mut() {
+                            *w = circuit.push_and(*w, *w);
+                        }
+                        expr
+                    }""", "a same-width cast requests gates")
+M("u4-mux-no-fold", "C15", "fire U4", "src/circuit.rs",
+  """    pub fn push_mux(&mut self, s: GateIndex, x0: GateIndex, x1: GateIndex) -> GateIndex {
+        if x0 == x1 {
+            return x0;
+        }""",
+  """    pub fn push_mux(&mut self, s: GateIndex, x0: GateIndex, x1: GateIndex) -> GateIndex {""", "muxing a wire with itself costs gates")
